@@ -37,4 +37,4 @@ run_one() {
   fi
 }
 export -f run_one
-printf '%s\n' "${list[@]}" | xargs -P 12 -I{} bash -c 'run_one "{}"' | sort
+printf '%s\n' "${list[@]}" | xargs -P 15 -I{} bash -c 'run_one "{}"' | sort
